@@ -3,7 +3,7 @@ import importlib
 
 MODULES = {
     'C01': 'checks.c01_c03_engine', 'C02': 'checks.c01_c03_engine', 'C03': 'checks.c01_c03_engine',
-    'C04': 'checks.c04_eof_timeout', 'C05': 'checks.c05_deadlines', 'C06': 'checks.c06_transport', 'C07': 'checks.c07_unicode', 'C08': 'checks.c08_send', 'C09': 'checks.c09_c10_lifecycle', 'C10': 'checks.c09_c10_lifecycle', 'C11': 'checks.c11_logging', 'C12': 'checks.c12_run', 'C14': 'checks.c14_async', 'C15': 'checks.c15_interact', 'C16': 'checks.c16_replwrap', 'C17': 'checks.c17_pxssh',
+    'C04': 'checks.c04_eof_timeout', 'C05': 'checks.c05_deadlines', 'C06': 'checks.c06_transport', 'C07': 'checks.c07_unicode', 'C08': 'checks.c08_send', 'C09': 'checks.c09_c10_lifecycle', 'C10': 'checks.c09_c10_lifecycle', 'C11': 'checks.c11_logging', 'C12': 'checks.c12_run', 'C14': 'checks.c14_async', 'C15': 'checks.c15_interact', 'C16': 'checks.c16_replwrap', 'C17': 'checks.c17_pxssh', 'C18': 'checks.c18_ansi',
 }
 
 
